@@ -26,6 +26,7 @@ COMPILER_REPLAYS = {
     "u_strlit": ["replay/c11/run.sh"],
     "u_dynvis": ["replay/c17/run.sh"],
     "u_dceblk": ["replay/c09/run.sh"],
+    "u_rows": ["replay/c06/run.sh"],
 }
 
 
